@@ -77,7 +77,7 @@ enum Item {
 }
 
 pub fn run(ctx: &mut Ctx) {
-    let big = ctx.tier == Tier::Thorough && gen::chance(1, 25);
+    let big = gen::chance(1, if ctx.tier == crate::harness::Tier::Thorough { 25 } else { 400 });
     let n = if big { (3 << 20) + gen::draw(1 << 20) as usize } else { 1 + gen::draw(100_000) as usize };
     let mut content = vec![0u8; n];
     simkit::prng::Rng::new(gen::t(|t| t.seed64())).fill(&mut content);
